@@ -501,7 +501,7 @@ def layer5() -> typing.List[Case]:
         ),
         ("deprecated:old_version", {"reg/DepV.1.0.dsdl": "@deprecated\nuint8 a\n@sealed\n", "reg/DepV.1.1.dsdl": "uint8 a\n@sealed\n"}),
     ]
-    cases.append(dict(id="L5.deprecated", layer="L5", roots=["reg"], fixed={}, skeletons={}, members=file_members(dep, "deprecated"), core_all=True))
+    cases.append(dict(id="L5.deprecated", layer="L5", roots=["reg"], fixed={}, skeletons={}, members=file_members(dep, "deprecated"), core_all=False))
 
     odd = [
         ("empty:sealed", {"reg/Empty.1.0.dsdl": "@sealed\n"}),
@@ -514,7 +514,7 @@ def layer5() -> typing.List[Case]:
         ("version:255.255", {"reg/Max.255.255.dsdl": "uint8 a\n@sealed\n"}),
         ("assert_and_print", {"reg/Directives.1.0.dsdl": "uint8 a\n@assert _offset_ == {8}\n@print _offset_\n@sealed\n"}),
     ]
-    cases.append(dict(id="L5.empty_const_only", layer="L5", roots=["reg"], fixed={}, skeletons={}, members=file_members(odd, "odd_type"), core_all=True))
+    cases.append(dict(id="L5.empty_const_only", layer="L5", roots=["reg"], fixed={}, skeletons={}, members=file_members(odd, "odd_type"), core_all=False))
 
     # constants of every primitive kind
     groups: typing.Dict[str, typing.List[typing.Tuple[str, str]]] = {}
@@ -589,6 +589,7 @@ def layer6(accepted: typing.Dict[str, typing.List[NameEntry]]) -> typing.List[Ca
             dict(
                 id=f"L6.type.{b:03d}",
                 layer="L6",
+                quick_core=not all(primary_origin(e) == "py_builtin" for e in batch),
                 roots=["reg"],
                 fixed={},
                 skeletons={rel: ["", "@sealed\n"]},
@@ -613,6 +614,7 @@ def layer6(accepted: typing.Dict[str, typing.List[NameEntry]]) -> typing.List[Ca
             dict(
                 id=f"L6.ns.{b:03d}",
                 layer="L6",
+                quick_core=not all(primary_origin(e) == "py_builtin" for e in batch),
                 roots=["reg"],
                 fixed={},
                 skeletons={rel: ["", "@sealed\n"]},
@@ -640,6 +642,7 @@ def layer6(accepted: typing.Dict[str, typing.List[NameEntry]]) -> typing.List[Ca
             c = dict(
                 id=f"L6.{tagname}.{b:03d}",
                 layer="L6",
+                quick_core=not all(primary_origin(e) == "py_builtin" for e in batch),
                 roots=["usr"],
                 fixed={},
                 skeletons={rel: ["", "@sealed\n"]},
@@ -721,7 +724,6 @@ def layer7() -> typing.List[Case]:
                     rel_u: ["@union\nuint8 zza\nuint8 zzb\n", "@sealed\n"],
                 },
                 members=members[b : b + BATCH],
-                core_all=(b == 0),
             )
         )
     return cases
